@@ -74,7 +74,7 @@ def one(kind, name, path, keep=False, meta=None):
                 elif isinstance(want, str) and want not in r["out"]:
                     ok = False
                     msgs.append("%s reported a violation but did not name %r:\n%s" % (p, want, "\n".join(r["violations"][:5])))
-                elif "setup|" in r["out"] or "checker-error" in r["out"] or "facts-unavailable" in r["out"]:
+                elif "|setup|" in r["out"] or "checker-error" in r["out"] or "facts-unavailable" in r["out"]:
                     ok = False
                     msgs.append("%s failed closed instead of analysing the mutant (does it compile?):\n%s" % (p, r["out"][-800:] + r["err"][-800:]))
         return name, ok, "; ".join(msgs) + (" (%.1fs)" % (time.time() - t0))
